@@ -128,7 +128,11 @@ def vacuity(ctx):
             seen.add(key)
             m = dict(m, coverage=True)
             r = engine.model_check(ctx, m)
-            never = [a for a, c in r.get("actions", {}).items() if c == 0 and a not in ("Init",)]
+            # dead by design in the repaired code: with the range check at the entry points the empty-range panic of
+            # gen_range(0..0) and the debug assertions of the bulk recursion are unreachable (they are reached only in the
+            # regress configurations); CheckRange cannot fire when only in-range requests are explored
+            dead_ok = {"EmptyRangePanic", "DebugAssertFail"} | ({"CheckRange"} if m["cfg"].get("constants", {}).get("OutOfRange") is False else set())
+            never = [a for a, c in r.get("actions", {}).items() if c == 0 and a not in ("Init",) and a not in dead_ok]
             engine.log("  vacuity %-24s %-22s %8d states, actions: %s%s" % (prop + "/" + r["name"], m["module"], r["distinct"],
                        ", ".join("%s=%d" % kv for kv in sorted(r.get("actions", {}).items())), "  NEVER TAKEN: " + ",".join(never) if never else ""))
             ok &= r["ok"] and not never
